@@ -469,6 +469,24 @@ impl<'tcx> Cx<'tcx> {
                     }
                     return Some(J::Obj(vec![("opaque", s(tystr(ty)))]));
                 }
+                if let ty::Slice(elem) = inner.kind() {
+                    // wide pointer to a constant slice: (address, length) -> the elements, like an array
+                    let psz = tcx.data_layout.pointer_size();
+                    let prov = a.provenance().ptrs().get(&off)?;
+                    let addr = read_uint(off, psz)? as u64;
+                    let len = read_uint(off + psz, psz)? as u64;
+                    if len <= 4096 {
+                        if let GlobalAlloc::Memory(target) = tcx.global_alloc(prov.alloc_id()) {
+                            let el = tcx.layout_of(env.as_query_input(*elem)).ok()?;
+                            let mut v = Vec::with_capacity(len as usize);
+                            for i in 0..len {
+                                v.push(self.decode(*elem, target, Size::from_bytes(addr) + el.size * i, depth)?);
+                            }
+                            return Some(J::Arr(v));
+                        }
+                    }
+                    return Some(J::Obj(vec![("opaque", s(tystr(ty)))]));
+                }
                 if !inner.is_sized(tcx, env) {
                     return Some(J::Obj(vec![("opaque", s(tystr(ty)))]));
                 }
